@@ -412,6 +412,7 @@ def plan(ctx, pid):
     if pid == 'C01':
         S('BitWriter.size', 'h_bitw_size', 'BitWriter_size', 'BitWriter::size')
         S('BitWriter.write', 'h_bitw_write', 'BitWriter_write', 'BitWriter::write')
+        S('BitWriter.truncate', 'h_bitw_truncate', 'BitWriter_truncate', 'BitWriter::truncate', replace=['vstr_resize_x'])
         S('BitReader.pread', 'h_bitr_pread', 'BitReader_pread', 'BitReader::pread', loops=True, kind='loop-contract', fallback_unwind=66)
         S('BitReader.read', 'h_bitr_read', 'BitReader_read', 'BitReader::read', replace=['BitReader_pread'])
     # ---- typed one-liners: one group per accessor; the specification (width, signedness, byte order) comes from the
